@@ -547,6 +547,30 @@ func c08Plan(c *Ctx, planNo int, T time.Duration) {
 			c.Res.Violate("C08:crossed-reply:"+cl.ctrl.path, fmt.Sprintf("%s (%s path, fixed port=%v) did not return the reply to its own request: %s", cl.op.name, cl.ctrl.path, fixed, msg), w, int64(planNo))
 		}
 	}
+	// every call that returned a value sent a request of its own: for identical requests (operations without a unique id) the farm
+	// must have seen at least as many arrivals as there were successful calls
+	{
+		succ := map[[3]uint32]int{}
+		for _, cl := range all {
+			if cl.out.Err == "" && !cl.panicked {
+				fn := rm.FindOp(cl.op.name).Fn
+				idw := cl.id
+				if cl.op.idAt == "" {
+					idw = 0
+				} else if cl.op.idAt == "ProfileID" || cl.op.idAt == "Door" {
+					idw = cl.id & 0xff
+				}
+				succ[[3]uint32{cl.ctrl.serial, uint32(fn), idw}]++
+			}
+		}
+		for k, n := range succ {
+			c.Res.Eval(1)
+			if got := len(multi[k]); got < n {
+				c.Res.Violate("C08:request-not-sent", fmt.Sprintf("%d concurrent calls with the identical request (controller %d, function 0x%02x) returned a value but only %d request(s) reached the controller: a call was answered from another call's exchange", n, k[0], k[1], got),
+					map[string]any{"plan": planNo, "controller": k[0], "function": k[1], "successful_calls": n, "requests_seen": got, "fixed_port": fixed}, int64(planNo))
+			}
+		}
+	}
 	c.Res.Count("calls-that-queued-for-the-port", int64(queued))
 	if planNo == 0 {
 		c.Res.Sample(map[string]any{"plan": planNo, "goroutines": N, "calls_each": K, "clients": nClients, "fixed_port": fixed, "interleaving": truncateStr(s, 400)})
